@@ -244,6 +244,19 @@ pub fn main(job_path: &str) -> i32 {
       init.shutdown(Duration::from_secs(20));
     }
   };
+  // the generated panic is reported in one line (with RUST_BACKTRACE set the default hook
+  // would symbolise a backtrace, which costs seconds per child); every other panic keeps the
+  // default report
+  if matches!(job.how, How::Unwind | How::UnwindThread) {
+    let default_hook = std::panic::take_hook();
+    std::panic::set_hook(Box::new(move |info| {
+      if info.payload().downcast_ref::<&str>().map_or(false, |s| s.starts_with("logx: generated panic")) {
+        eprintln!("[logx driver] generated panic in thread {:?}: the guard is dropped by unwinding", std::thread::current().name().unwrap_or("?"));
+      } else {
+        default_hook(info)
+      }
+    }));
+  }
   // the guard goes out of scope because a panic unwinds through its owner
   let end_by_panic = move |init: fibre_logging::InitResult| {
     let _guard = init;
